@@ -5,7 +5,7 @@ import numpy as np
 
 from symtt.core import scenario, HarnessError
 from symtt import dense as D
-from .common import mk_cores, meta_ok
+from .common import free_policy, mk_cores, meta_ok
 from .C07 import frame
 
 META = {
@@ -265,8 +265,7 @@ def power_method(ctx, shape, cplx, gevp, repeats):
     calls = []
     if ctx.sym:
         from symtt import state, lapack
-        state.reset()
-        lapack.set_policy(lapack.FreePolicy(assume_sorted_spectrum=False))
+        free_policy(ctx)
 
     class FakeSle(object):
         @staticmethod
